@@ -225,7 +225,7 @@ pub fn run_c17(tier: Tier, seed: u64) -> i32 {
   rep.min_nontrivial = tier.pick(500, 20_000);
   rep.floor("worlds_with_type_only_failures", 50);
   rep.floor("pruned_after_fast_check", 20);
-  let n = tier.pick(32000, 1200000);
+  let n = tier.pick(32000, 12000000);
   let acc = par_run(n, |i, acc| c17_one(i, seed, acc));
   rep.finish(acc)
 }
@@ -445,7 +445,7 @@ pub fn run_c18(tier: Tier, seed: u64) -> i32 {
   rep.min_nontrivial = tier.pick(1000, 30_000);
   rep.floor("segments_compared_with_direct_build", 500);
   rep.floor("graphs_with_fast_check_modules", 20);
-  let n = tier.pick(20000, 640000);
+  let n = tier.pick(20000, 6400000);
   let acc = par_run(n, |i, acc| c18_one(i, seed, acc));
   rep.finish(acc)
 }
